@@ -50,6 +50,32 @@ ObsOK ==
 
 RetOK == ret'.t = E.rt /\ (E.rt # "cnt" \/ ret'.n = E.rn)
 
+\* blobs holding bytes of a dropped operation that were never indexed; a start-up that rebuilds
+\* the index of such a blob from the file reveals them, one that loads a valid index does not
+HiddenBlobs == {b \in Ids : \E i \in DOMAIN blob[b].recs : blob[b].recs[i].hid}
+Reveal(rv) ==
+  [b \in Ids |->
+     IF b \in rv THEN [blob[b] EXCEPT !.recs = [i \in DOMAIN @ |-> [@[i] EXCEPT !.hid = FALSE]], !.ifcnt = -1]
+     ELSE IF b \in HiddenBlobs THEN [blob[b] EXCEPT !.ifcnt = Len(blob[b].recs)]
+     ELSE blob[b]]
+
+\* the bytes of a dropped write / delete reach the file although the call never indexed them
+HideIn(bl, targets, r) ==
+  [b \in DOMAIN bl |-> IF b \in targets THEN [bl[b] EXCEPT !.recs = Append(@, [r EXCEPT !.hid = TRUE])] ELSE bl[b]]
+Deferred ==
+  /\ E.a \in {"write", "delete"}
+  /\ LET created == active = None /\ (E.a = "write" \/ E.f # 1)
+         a1   == IF created THEN nextId ELSE active
+         bl1  == IF created THEN WithNew(blob, nextId) ELSE blob
+         cands == IF E.a = "write" THEN {{a1}}
+                  ELSE {S \in SUBSET ((IF a1 = None THEN {} ELSE {a1}) \cup Closed) : TRUE}
+     IN  \E S \in cands :
+           /\ blob' = HideIn(bl1, S, Rec(E.k, E.ts, E.a = "delete", E.m, opn + 1, E.s))
+           /\ active' = a1 /\ nextId' = IF created THEN nextId + 1 ELSE nextId
+           /\ usedIds' = IF a1 = None THEN usedIds ELSE usedIds \cup {a1}
+           /\ opn' = opn + 1
+           /\ UNCHANGED <<slots, quar, worker, agedIds, act, ret>>
+
 \* the specification's action named by the event
 Do ==
   CASE E.a = "write"  -> Write(E.k, E.ts, E.m, E.s)
@@ -64,8 +90,8 @@ Do ==
     [] E.a = "free_excess"    -> FreeExcess
     [] E.a = "fsync"          -> Fsync
     [] E.a = "age"            -> Age
-    [] E.a = "restart"        -> \E d \in {"keep", "lose"} :
-                                    RestartL(E.f % 2 = 1, (E.f \div 2) % 2 = 1, [b \in Ids |-> d], E.s)
+    [] E.a = "restart"        -> \E d \in {"keep", "lose"}, rv \in SUBSET HiddenBlobs :
+                                    RestartLB(Reveal(rv), E.f % 2 = 1, (E.f \div 2) % 2 = 1, [b \in Ids |-> d], E.s)
     [] OTHER -> FALSE
 
 \* a call that failed: nothing of it is visible.  (Bookkeeping that no query shows - a
@@ -103,12 +129,29 @@ PartialDelete ==
            /\ opn' = opn + 1
            /\ UNCHANGED <<slots, quar, worker, agedIds, act, ret>>
 
+\* a delete whose future was dropped after it had marked some blobs: the active blob is marked
+\* first, so any later answer is the one of a complete delete (the active marker outranks the
+\* missing ones) - only accounting could tell the difference, and accounting is not judged
+CancelledDelete ==
+  /\ E.a = "delete"
+  /\ LET created == active = None /\ E.f # 1
+         a1   == IF created THEN nextId ELSE active
+         bl1  == IF created THEN WithNew(blob, nextId) ELSE blob
+         inAct == IF a1 # None /\ (E.f # 1 \/ LocallyLiveIn(bl1, a1, E.k)) THEN {a1} ELSE {}
+         inCl  == {b \in Closed : LocallyLiveIn(bl1, b, E.k)}
+     IN  \E sub \in SUBSET inCl :
+           /\ blob' = AppendMarkers(bl1, inAct \cup sub, Rec(E.k, E.ts, TRUE, E.m, opn + 1, "z"))
+           /\ active' = a1 /\ nextId' = IF created THEN nextId + 1 ELSE nextId
+           /\ usedIds' = IF a1 = None THEN usedIds ELSE usedIds \cup {a1}
+           /\ opn' = opn + 1
+           /\ UNCHANGED <<slots, quar, worker, agedIds, act, ret>>
+
 Step ==
   CASE E.mode = "normal"   -> Do /\ RetOK
     [] E.mode = "failed"   -> NoEffect
     [] E.mode = "degraded" -> (Do /\ RetOK) \/ PartialDelete
                               \/ (E.a \notin {"write", "delete"} /\ NoEffect)   \* background work failed and was logged
-    [] E.mode = "maybe"    -> Do \/ NoEffect
+    [] E.mode = "maybe"    -> Do \/ NoEffect \/ CancelledDelete \/ Deferred
     [] OTHER -> FALSE
 
 Consume ==
